@@ -3,6 +3,16 @@
 import json, subprocess
 
 CHECKS = {
+ "C08": dict(
+   technique="reference-model runtime monitor: an independent pattern matcher decides exhaustiveness by evaluation over all values / one representative per boundary-induced region, and predicts the first matching arm and its bindings for every evaluated scrutinee value",
+   text="Exploration: generated arm lists (literals, inclusive/exclusive ranges at MIN/MAX/0, tuples, structs with '..', enums, nesting, bindings, wildcards anywhere) over generated scrutinee types; checker verdict vs oracle verdict, reported missing cases vs oracle, compiled circuit (dedup on/off) vs first-match semantics on the representative values.",
+   note="Exactness of the region argument: every arm is a union of products of intervals, so one representative per elementary region per component suffices; products above 60k values are skipped and counted.",
+   design="DESIGN.md section 2 / C08"),
+ "C13": dict(
+   technique="reference-model runtime monitor (sorted-merge join inside the interpreter, multiset oracle for join) plus complete 0/1 truth tables of the sorting networks driven through the builder hook",
+   text="Exploration with exhaustive sub-spaces: bitonic sorter on all 0/1 inputs for lengths 1..14 (16 thorough), merger on all bitonic 0/1 inputs for power-of-two lengths; for-join programs with order- and key-sensitive, possibly panicking bodies on all order types of two small key sets (n+m <= 7) and random keys; join built-in on all 0/1-keyed sorted arrays and random keys incl. duplicates (plain variant).",
+   note="Inputs respect the contract (sorted; strictly for for-join / associated data). Sizes above the bound are not covered.",
+   design="DESIGN.md section 2 / C13"),
  "C01": dict(
    technique="reference-model runtime monitor: generated well-typed programs are compiled by the real compiler in 4 configurations and every execution is judged against an independent source-level interpreter",
    text="Exploration: ~10^5 generated programs per quick run (expressions, all operators, casts, if/match/blocks, let/let mut, nested assignments, loops, calls, arrays/ranges/tuples/structs/enums), 24-48 boundary-biased argument tuples each, SSA and register form, dedup on and off; values compared through an independent codec and cross-checked with parse_arg / eval / parse_output.",
